@@ -267,6 +267,50 @@ def replay_frame(which, si, at):
 _ASSUME = ['carbon.protocols executed as a shadow module with log statements (and their message formatting) removed; replay on the real module',
            'framing (LineOnlyReceiver / Int32StringReceiver) is not re-verified here: items are handed to lineReceived / datagramReceived / stringReceived']
 
+_GOOD_FRAME = pickle.dumps([('ok.metric', (1700000060, 1.5))], protocol=2)
+
+
+def _frame_limit(limit, n, well_formed):
+  """Only a frame LONGER than PICKLE_RECEIVER_MAX_LENGTH may close the connection: a frame of up to
+  that many payload bytes - garbage or a padded valid pickle - is skipped or accepted, and the frame
+  behind it is accepted."""
+  import struct
+  from vp_lib.cachelab import sset
+  old = real_protocols.settings['PICKLE_RECEIVER_MAX_LENGTH']
+  sset('PICKLE_RECEIVER_MAX_LENGTH', limit)
+  try:
+    p = _mk(real_protocols, 'pickle')
+  finally:
+    sset('PICKLE_RECEIVER_MAX_LENGTH', old)
+  if well_formed:
+    payload = _GOOD_FRAME + b'\x00' * (n - len(_GOOD_FRAME))       # bytes after the STOP opcode are ignored by the codec
+  else:
+    payload = bytes(0xF0 + (i % 7) for i in range(n))
+  stream = struct.pack('!I', len(payload)) + payload + struct.pack('!I', len(_GOOD_FRAME)) + _GOOD_FRAME
+  try:
+    with Recorder() as rec:
+      p.dataReceived(stream)
+  finally:
+    drop_receiver(p)
+  if len(payload) <= limit:
+    cover('within')
+    want = (2 if well_formed else 1)
+    if p.transport.disconnecting:
+      raise AssertionError('connection closed by a frame of %d bytes with the limit at %d' % (len(payload), limit))
+    return len(rec.items) == want
+  cover('too_long')
+  return len(rec.items) == 0
+
+
+def C11_frame_limit(limit: int, n: int, well_formed: bool) -> bool:
+  """
+  pre: len(_GOOD_FRAME) + 1 <= limit <= len(_GOOD_FRAME) + 6
+  pre: len(_GOOD_FRAME) <= n <= len(_GOOD_FRAME) + 8
+  post: __return__
+  """
+  return _frame_limit(limit, n, well_formed)
+
+
 HARNESSES = [
   H('C11_line_bytes', quick=dict(timeout=240), thorough=dict(timeout=900, extra_pre=[]), covers=['survived'], replay='replay_line_bytes',
     encodes=['carbon.protocols:MetricLineReceiver.lineReceived', 'carbon.protocols:MetricReceiver.metricReceived'],
@@ -287,4 +331,7 @@ HARNESSES = [
     encodes=['carbon.protocols:MetricPickleReceiver.stringReceived'],
     assumptions=_ASSUME + ['C pickle engine replaced by a stub: raises a symbolic choice of %d exception classes (those _pickle.c, find_class and the codecs can raise) '
                            'or returns a symbolic choice of %d wrong-shaped payloads placed before / between / after two good entries' % (len(EXC), len(SHAPES))]),
+  H('C11_frame_limit', quick=dict(timeout=200), covers=['within', 'too_long'],
+    encodes=['carbon.protocols:MetricPickleReceiver.__init__ (MAX_LENGTH)', 'twisted Int32StringReceiver length check', 'carbon.protocols:MetricPickleReceiver.stringReceived'],
+    assumptions=['PICKLE_RECEIVER_MAX_LENGTH symbolic in a window of 6 values, frame length symbolic in a window of 9 around it; garbage or a padded valid pickle, followed by a good frame; real codec']),
 ]
